@@ -41,6 +41,15 @@ Theorem C08spec_rel_path_normal_idem : forall p, rel_path_normal (rel_path_norma
 Proof. exact rel_path_normal_idem. Qed.
 Print Assumptions C08spec_rel_path_normal_idem.
 
+(* ---- 2. the path -------------------------------------------------------------------------------- *)
+(* all three kinds of path at once (rooted; rootless behind a scheme or an authority; the rootless path of a
+   relative-path reference), whatever the two flags: the percent-encodings of every segment well formed, which
+   is what the parser guarantees (Spec.NormalWf.uri_pct_wf) *)
+Theorem C08spec_path_normal_idem : forall hs ha p, forallb pct_wf (split_on 47 p) = true ->
+  path_normal hs ha (path_normal hs ha p) = path_normal hs ha p.
+Proof. exact path_normal_idem. Qed.
+Print Assumptions C08spec_path_normal_idem.
+
 (* ---- tests, non-vacuity ---------------------------------------------------------------------- *)
 Definition c08spec_alphabet : list text := [[]; [46]; [46; 46]; [97]; [98; 58; 99]].
 Fixpoint c08spec_lists (n : nat) : list (list text) :=
